@@ -32,7 +32,7 @@
                              c08_other_checker_leaks shows what happens there *)
 From Coq Require Import ZArith List Bool String.
 From Rbacx Require Import Value Cond Policy Compiler Oblig Engine Cache CacheProofs
-  CacheKey CacheKeyProofs CacheGuard CacheGuardProofs.
+  CacheKey CacheKeyProofs CacheGuard CacheGuardProofs RolesEngine CacheExplain CacheGuardR CacheGuardRProofs.
 Import ListNotations.
 Local Open Scope string_scope.
 
@@ -358,3 +358,240 @@ Proof.
   apply (c08_lru_any_capacity_ttl_clock no_rel value canon veqb veqb_eq 4 ex_g ex_g2 ex_history);
     apply c08_example_hypotheses_hold.
 Qed.
+
+(* ================================================================== *)
+(* the decision cache COMPOSED WITH THE ROLE RESOLVER                  *)
+(* ================================================================== *)
+(* Model theories/CacheGuardR.v, proofs theories/CacheGuardRProofs.v.  Guard expands the subject's
+   roles with its role resolver BEFORE the env is built, and the cache key is computed from that
+   env: the key holds the EXPANDED roles.  Each guard has its own resolver:
+       resolve w own rs = (answer, rs')
+   guard w's resolver on the subject's own roles in oracle state rs; answer = None: no resolver
+   configured, or expand raised (own roles kept); Some r: what expand returned (any value).  The
+   oracle state is threaded through the history (Guard calls expand once per evaluation, before the
+   cache is consulted, hit or miss), so a resolver whose answers change along the history is INSIDE
+   the statements; what is assumed is that the oracle's evolution depends only on the sequence of
+   expand calls.  [run_cachedR] / [run_refR]: run_cached / run_ref with  build_env strict req answer
+   in the place of  build_env strict req None;  [envs_allR]: the envs of the history AFTER role
+   expansion.  Hypotheses as above, the env conditions now on the expanded envs. *)
+
+(* transparency, general form: two guards with their own resolvers sharing any contract-meeting cache *)
+Theorem c08_transparent_with_resolver :
+  forall (relh : rel_query -> unit -> bool * unit) (T : Type) (tag : value -> T) (teqb : T -> T -> bool),
+  (forall a b, teqb a b = true <-> a = b) ->
+  forall (norm : value -> value) (oblig : bool -> raw -> value -> option (bool * option string))
+         (M : cache_impl T), contract T teqb M ->
+  forall (copying : bool) (RS : Type) (resolve : bool -> value -> RS -> option value * RS)
+         (g1 g2 : gcfg) (h : list hop) (rs0 : RS),
+  tag_inj T tag (policies_all g1 g2 h) ->
+  key_respects_decision relh norm (policies_all g1 g2 h) (envs_allR RS resolve g1 g2 h rs0) ->
+  reason_blind oblig ->
+  refusal_stable norm oblig (envs_allR RS resolve g1 g2 h rs0) ->
+  map snd (snd (run_cachedR unit relh T tag norm oblig M copying RS resolve h (init unit T M g1 g2 tt) rs0))
+  = run_refR unit relh oblig RS resolve h g1 g2 tt rs0.
+Proof. exact transparentR. Qed.
+Print Assumptions c08_transparent_with_resolver.
+
+(* the engine as it is: sort_keys key, built-in checker, key-safe envs (after expansion) *)
+Theorem c08_transparent_with_resolver_key_safe :
+  forall (relh : rel_query -> unit -> bool * unit) (T : Type) (tag : value -> T) (teqb : T -> T -> bool),
+  (forall a b, teqb a b = true <-> a = b) ->
+  forall (M : cache_impl T), contract T teqb M ->
+  forall (RS : Type) (resolve : bool -> value -> RS -> option value * RS)
+         (copying : bool) (g1 g2 : gcfg) (h : list hop) (rs0 : RS),
+  tag_inj T tag (policies_all g1 g2 h) ->
+  (forall e, In e (envs_allR RS resolve g1 g2 h rs0) -> key_safe e = true) ->
+  map snd (snd (run_cachedR unit relh T tag canon builtin_both M copying RS resolve h (init unit T M g1 g2 tt) rs0))
+  = run_refR unit relh builtin_both RS resolve h g1 g2 tt rs0.
+Proof. exact transparentR_key_safe. Qed.
+Print Assumptions c08_transparent_with_resolver_key_safe.
+
+(* ... with DefaultInMemoryCache: any capacity, per-guard TTLs, clock *)
+Theorem c08_with_resolver_lru :
+  forall (relh : rel_query -> unit -> bool * unit) (T : Type) (tag : value -> T) (teqb : T -> T -> bool),
+  (forall a b, teqb a b = true <-> a = b) ->
+  forall (RS : Type) (resolve : bool -> value -> RS -> option value * RS)
+         (cap : Z) (g1 g2 : gcfg) (h : list hop) (rs0 : RS),
+  tag_inj T tag (policies_all g1 g2 h) ->
+  (forall e, In e (envs_allR RS resolve g1 g2 h rs0) -> key_safe e = true) ->
+  map snd (snd (run_cachedR unit relh T tag canon builtin_both (lru_cache T teqb cap) false RS resolve h
+                  (init unit T (lru_cache T teqb cap) g1 g2 tt) rs0))
+  = run_refR unit relh builtin_both RS resolve h g1 g2 tt rs0.
+Proof. exact lru_instanceR. Qed.
+Print Assumptions c08_with_resolver_lru.
+
+(* an engine keyed on the env as given: no condition on the requests or the resolvers' answers *)
+Theorem c08_with_resolver_exact_key :
+  forall (relh : rel_query -> unit -> bool * unit) (T : Type) (tag : value -> T) (teqb : T -> T -> bool),
+  (forall a b, teqb a b = true <-> a = b) ->
+  forall (M : cache_impl T), contract T teqb M ->
+  forall (RS : Type) (resolve : bool -> value -> RS -> option value * RS)
+         (copying : bool) (g1 g2 : gcfg) (h : list hop) (rs0 : RS),
+  tag_inj T tag (policies_all g1 g2 h) ->
+  map snd (snd (run_cachedR unit relh T tag (fun v => v) builtin_both M copying RS resolve h (init unit T M g1 g2 tt) rs0))
+  = run_refR unit relh builtin_both RS resolve h g1 g2 tt rs0.
+Proof. exact transparentR_exact_key. Qed.
+Print Assumptions c08_with_resolver_exact_key.
+
+(* the resolvers are driven through the same oracle states with and without the cache *)
+Theorem c08_with_resolver_same_oracle :
+  forall (relh : rel_query -> unit -> bool * unit) (T : Type) (tag : value -> T) (teqb : T -> T -> bool),
+  (forall a b, teqb a b = true <-> a = b) ->
+  forall (norm : value -> value) (oblig : bool -> raw -> value -> option (bool * option string))
+         (M : cache_impl T), contract T teqb M ->
+  forall (copying : bool) (RS : Type) (resolve : bool -> value -> RS -> option value * RS)
+         (g1 g2 : gcfg) (h : list hop) (rs0 : RS),
+  tag_inj T tag (policies_all g1 g2 h) ->
+  key_respects_decision relh norm (policies_all g1 g2 h) (envs_allR RS resolve g1 g2 h rs0) ->
+  reason_blind oblig ->
+  refusal_stable norm oblig (envs_allR RS resolve g1 g2 h rs0) ->
+  snd (fst (run_cachedR unit relh T tag norm oblig M copying RS resolve h (init unit T M g1 g2 tt) rs0))
+  = oracle_after RS resolve h rs0.
+Proof. exact oracle_sameR. Qed.
+Print Assumptions c08_with_resolver_same_oracle.
+
+(* the invariant with resolvers: a returned cell holds the raw decision of the policy named by the
+   key's tag on an env of the history — expanded roles inside — with the key's normal form *)
+Theorem c08_invariant_with_resolver :
+  forall (relh : rel_query -> unit -> bool * unit) (T : Type) (tag : value -> T) (teqb : T -> T -> bool),
+  (forall a b, teqb a b = true <-> a = b) ->
+  forall (norm : value -> value) (oblig : bool -> raw -> value -> option (bool * option string))
+         (M : cache_impl T), contract T teqb M ->
+  forall (copying : bool) (RS : Type) (resolve : bool -> value -> RS -> option value * RS)
+         (g1 g2 : gcfg) (h : list hop) (rs0 : RS),
+  tag_inj T tag (policies_all g1 g2 h) ->
+  key_respects_decision relh norm (policies_all g1 g2 h) (envs_allR RS resolve g1 g2 h rs0) ->
+  reason_blind oblig ->
+  refusal_stable norm oblig (envs_allR RS resolve g1 g2 h rs0) ->
+  forall (k : key T) (now : Z) (l : nat),
+  let s := fst (fst (run_cachedR unit relh T tag norm oblig M copying RS resolve h (init unit T M g1 g2 tt) rs0)) in
+  snd (c_step M (OGet k now) (s_cache unit T M s)) = RHit l ->
+  exists p e r x,
+    k = (tag p, norm e) /\ In p (policies_all g1 g2 h) /\ In e (envs_allR RS resolve g1 g2 h rs0) /\
+    fst (guard_decide unit relh p e tt) = ERaw r /\
+    nth_error (s_heap unit T M s) l = Some x /\
+    (x = r \/
+     (x = mutated r /\ r_decision r = "permit" /\
+      exists w e', In e' (envs_allR RS resolve g1 g2 h rs0) /\ norm e' = norm e /\
+        failed_verdict (oblig w r (get_key "context" e')) = true)).
+Proof. exact invariantR. Qed.
+Print Assumptions c08_invariant_with_resolver.
+
+(* nothing proved above is lost: with no resolver in either guard the new run functions ARE the old
+   ones (final state, hit flags, answers; the reference run; the envs of the history) — any state of
+   the relationship checker, any key, any checkers, any cache *)
+Theorem c08_old_model_is_instance :
+  forall (S : Type) (relh : rel_query -> S -> bool * S) (T : Type) (tag : value -> T)
+         (norm : value -> value) (oblig : bool -> raw -> value -> option (bool * option string))
+         (M : cache_impl T) (copying : bool) (h : list hop) (s : state S T M) (g1 g2 : gcfg) (st : S),
+  fst (fst (run_cachedR S relh T tag norm oblig M copying unit no_resolver h s tt))
+    = fst (run_cached S relh T tag norm oblig M copying h s) /\
+  snd (run_cachedR S relh T tag norm oblig M copying unit no_resolver h s tt)
+    = snd (run_cached S relh T tag norm oblig M copying h s) /\
+  run_refR S relh oblig unit no_resolver h g1 g2 st tt = run_ref S relh oblig h g1 g2 st /\
+  envs_allR unit no_resolver g1 g2 h tt = envs_all g1 g2 h.
+Proof. exact old_model_is_instance. Qed.
+Print Assumptions c08_old_model_is_instance.
+
+(* the answer at a site  h = pre ++ HEval w req :: post  (vocabulary of C01's cached theorems:
+   policy_at = the policy guard w holds after pre, guard_strict = its type mode): hit or miss, it
+   is guard_eval with the resolver's answer at that point, [answer_at] =
+   fst (resolve w (own_roles req) (oracle_after pre rs0)), on the policy held there *)
+Theorem c08_cached_answer_with_resolver :
+  forall (relh : rel_query -> unit -> bool * unit) (T : Type) (tag : value -> T) (teqb : T -> T -> bool),
+  (forall a b, teqb a b = true <-> a = b) ->
+  forall (norm : value -> value) (oblig : bool -> raw -> value -> option (bool * option string))
+         (M : cache_impl T), contract T teqb M ->
+  forall (copying : bool) (RS : Type) (resolve : bool -> value -> RS -> option value * RS)
+         (g1 g2 : gcfg) (h : list hop) (rs0 : RS),
+  tag_inj T tag (policies_all g1 g2 h) ->
+  key_respects_decision relh norm (policies_all g1 g2 h) (envs_allR RS resolve g1 g2 h rs0) ->
+  reason_blind oblig ->
+  refusal_stable norm oblig (envs_allR RS resolve g1 g2 h rs0) ->
+  forall pre w req post hit o,
+  h = (pre ++ HEval w req :: post)%list ->
+  nth_error (snd (run_cachedR unit relh T tag norm oblig M copying RS resolve h (init unit T M g1 g2 tt) rs0))
+            (evals_in pre) = Some (hit, o) ->
+  o = fst (guard_eval unit relh (oblig w) (guard_strict w g1 g2) (policy_at w pre g1 g2) req
+             (answer_at RS resolve w req pre rs0) tt).
+Proof. exact cached_answerR. Qed.
+Print Assumptions c08_cached_answer_with_resolver.
+
+(* ... for resolvers that are functions f of (guard, own roles): guard_eval … req (f w (own_roles req)) *)
+Theorem c08_cached_answer_with_pure_resolver :
+  forall (relh : rel_query -> unit -> bool * unit) (T : Type) (tag : value -> T) (teqb : T -> T -> bool),
+  (forall a b, teqb a b = true <-> a = b) ->
+  forall (norm : value -> value) (oblig : bool -> raw -> value -> option (bool * option string))
+         (M : cache_impl T), contract T teqb M ->
+  forall (copying : bool) (f : bool -> value -> option value) (g1 g2 : gcfg) (h : list hop),
+  tag_inj T tag (policies_all g1 g2 h) ->
+  key_respects_decision relh norm (policies_all g1 g2 h) (envs_allR unit (pure_resolver f) g1 g2 h tt) ->
+  reason_blind oblig ->
+  refusal_stable norm oblig (envs_allR unit (pure_resolver f) g1 g2 h tt) ->
+  forall pre w req post hit o,
+  h = (pre ++ HEval w req :: post)%list ->
+  nth_error (snd (run_cachedR unit relh T tag norm oblig M copying unit (pure_resolver f) h (init unit T M g1 g2 tt) tt))
+            (evals_in pre) = Some (hit, o) ->
+  o = fst (guard_eval unit relh (oblig w) (guard_strict w g1 g2) (policy_at w pre g1 g2) req (f w (own_roles req)) tt).
+Proof. exact cached_answerR_pure. Qed.
+Print Assumptions c08_cached_answer_with_pure_resolver.
+
+(* what the key holds at subject.roles is the resolver's answer (own roles if there is none), and
+   two envs with one key have the same roles whenever these are a list of scalars (role names) *)
+Theorem c08_key_holds_expanded_roles :
+  forall strict req answer env,
+  build_env strict req answer = Some env ->
+  env_roles env = match answer with Some r => r | None => own_roles req end.
+Proof. exact key_roles_are_expanded. Qed.
+Print Assumptions c08_key_holds_expanded_roles.
+
+Theorem c08_same_key_same_roles :
+  forall e1 e2, canon e1 = canon e2 -> order_free (env_roles e1) = true -> env_roles e1 = env_roles e2.
+Proof. exact same_key_same_roles. Qed.
+Print Assumptions c08_same_key_same_roles.
+
+(* ---------------- non-vacuity (with resolvers) ---------------- *)
+(* guard 1: StaticRoleResolver({"editor": ["viewer"]}) (C18's model Roles.expand), guard 2: no
+   resolver; one policy (permit read on doc when subject.roles has "viewer"), one
+   DefaultInMemoryCache(4).  History rx_h: guard 1 on own roles [editor], guard 1 on
+   [viewer, editor], guard 2 on [editor], guard 2 on [editor, viewer]. *)
+Example c08_example_resolver_expansions :
+  own_roles (rq ["editor"]) <> own_roles (rq ["viewer"; "editor"]) /\
+  fst (rx_resolve false (own_roles (rq ["editor"])) tt) = Some (strs ["editor"; "viewer"]) /\
+  fst (rx_resolve false (own_roles (rq ["viewer"; "editor"])) tt) = Some (strs ["editor"; "viewer"]) /\
+  fst (rx_resolve true (own_roles (rq ["editor"])) tt) = None.
+Proof. exact rx_expansions. Qed.
+
+(* different own roles, equal EXPANDED roles: one entry — the second evaluation is a hit, with the
+   first one's Decision; equal own roles under guards with different resolvers: NOT one entry — the
+   third is a miss (and a deny); own roles equal to the other guard's expanded roles: a hit *)
+Example c08_example_resolver_hit_pattern : map fst rx_outs = [false; true; false; true].
+Proof. exact rx_hit_pattern. Qed.
+Example c08_example_resolver_answers :
+  map summary rx_outs =
+  [(false, Some (true, Some "v1", "matched")); (true, Some (true, Some "v1", "matched"));
+   (false, Some (false, None, "condition_mismatch")); (true, Some (true, Some "v1", "matched"))].
+Proof. exact rx_answers. Qed.
+Example c08_example_resolver_equal_decisions : nth_error (map snd rx_outs) 0 = nth_error (map snd rx_outs) 1.
+Proof. exact rx_equal_decisions. Qed.
+Example c08_example_resolver_keys :
+  exists e1 e2 e3 e4, envs_allR unit rx_resolve rx_g rx_g rx_h tt = [e1; e2; e3; e4] /\
+    e1 = e2 /\ veqb (canon e1) (canon e3) = false /\ e4 = e1.
+Proof. exact rx_keys. Qed.
+Example c08_example_resolver_hypotheses_hold :
+  tag_inj value canon (policies_all rx_g rx_g rx_h) /\
+  (forall e, In e (envs_allR unit rx_resolve rx_g rx_g rx_h tt) -> key_safe e = true).
+Proof. exact rx_hypotheses_hold. Qed.
+Example c08_example_resolver_transparent :
+  map snd rx_outs = run_refR unit no_rel builtin_both unit rx_resolve rx_h rx_g rx_g tt tt.
+Proof.
+  apply (c08_with_resolver_lru no_rel value canon veqb veqb_eq unit rx_resolve 4 rx_g rx_g rx_h tt);
+    apply c08_example_resolver_hypotheses_hold.
+Qed.
+(* a resolver whose answer changes between two evaluations of one request (the graph loses
+   editor -> viewer after the first expand call): another key, a miss, a deny — as without a cache *)
+Example c08_example_changing_resolver :
+  map summary ry_outs =
+    [(false, Some (true, Some "v1", "matched")); (false, Some (false, None, "condition_mismatch"))] /\
+  map snd ry_outs = run_refR unit no_rel builtin_both nat ry_resolve ry_h rx_g rx_g tt O.
+Proof. exact (conj ry_answers ry_transparent). Qed.
